@@ -14,6 +14,7 @@ import (
 	"os"
 	"sort"
 	"strings"
+	"sync/atomic"
 	"time"
 
 	bs "github.com/danthegoodman1/bloomsearch"
@@ -131,6 +132,9 @@ type Step struct {
 	Rows []Val   `json:"rows,omitempty"` // ingest / ext
 	Cfg  *EngCfg `json:"cfg,omitempty"`  // restart
 	Ext  *ExtOpt `json:"ext,omitempty"`  // external writer options
+	// During (merge only): ingest / flush steps carried out by the caller while
+	// the Merge call is running on another goroutine
+	During []Step `json:"during,omitempty"`
 }
 
 type History struct {
@@ -141,6 +145,9 @@ type History struct {
 	// Faults: one-shot store failures while the history runs (a flush or merge
 	// fails, later ones succeed): whatever produced the files
 	Faults []HistFault `json:"faults,omitempty"`
+	// SlowWriteUs: every DataStore Write takes this long while a merge with
+	// During steps is running (so the During steps really overlap it)
+	SlowWriteUs int `json:"slow_write_us,omitempty"`
 }
 
 type HistFault struct {
@@ -182,6 +189,10 @@ type World struct {
 	MergeLog []MergeObs
 	// FaultsFired counts the planned store failures that actually happened
 	FaultsFired int
+	// MergeRetried: merges that failed on an injected fault and succeeded when
+	// the same engine instance tried again; ConcMerges: merges that ran while
+	// the caller was ingesting and flushing
+	MergeRetried, ConcMerges int
 	cleanup     []func()
 }
 
@@ -297,9 +308,13 @@ func RunHistory(h History) (*World, error) {
 	var eds bs.DataStore = ds
 	var ems bs.MetaStore = ms
 	faulty := len(h.Faults) > 0
-	if faulty {
+	var slowWrites int32
+	if faulty || h.SlowWriteUs > 0 {
 		tr := NewTrace(ds, ms)
 		tr.Before = func(ci *CallInfo) error {
+			if ci.Kind == "Write" && atomic.LoadInt32(&slowWrites) == 1 {
+				time.Sleep(time.Duration(h.SlowWriteUs) * time.Microsecond)
+			}
 			for _, f := range h.Faults {
 				if f.Kind == ci.Kind && f.N == ci.KindSeq {
 					w.FaultsFired++
@@ -357,40 +372,45 @@ func RunHistory(h History) (*World, error) {
 		return eng.Stop(sctx)
 	}
 
+	ingest := func(si int, vals []Val) error {
+		rows := make([]map[string]any, 0, len(vals))
+		var ids []int
+		for _, r := range vals {
+			id := nextID
+			nextID++
+			rv := withID(r, id)
+			g := rowGo(rv)
+			jb, err := json.Marshal(g)
+			if err != nil {
+				return fmt.Errorf("step %d: generated row not marshalable: %v", si, err)
+			}
+			em, err := emissionsOf(jb)
+			if err != nil {
+				return fmt.Errorf("step %d: oracle cannot parse marshaled row %s: %v", si, jb, err)
+			}
+			sr := &StoredRow{ID: id, Val: rv, JSON: jb, CfgIdx: cfgIdx, MinMax: append([]string(nil), cfg.MinMax...),
+				Sem: rowSem(em, tok), Facts: rowFacts(g, rv, cfg), Unknown: em.Uncertain}
+			sr.Part = sr.Facts.Partition
+			w.Rows[id] = sr
+			w.Order = append(w.Order, id)
+			rows = append(rows, g)
+			ids = append(ids, id)
+		}
+		ch := make(chan error, 1)
+		if err := eng.IngestRows(ctx, rows, ch); err != nil {
+			return fmt.Errorf("step %d: IngestRows: %v", si, err)
+		}
+		pend = append(pend, pending{ch, ids})
+		return nil
+	}
+
 	for si, st := range h.Steps {
 		switch st.Op {
 		case "ingest":
-			rows := make([]map[string]any, 0, len(st.Rows))
-			var ids []int
-			for _, r := range st.Rows {
-				id := nextID
-				nextID++
-				rv := withID(r, id)
-				g := rowGo(rv)
-				jb, err := json.Marshal(g)
-				if err != nil {
-					w.Close()
-					return nil, fmt.Errorf("step %d: generated row not marshalable: %v", si, err)
-				}
-				em, err := emissionsOf(jb)
-				if err != nil {
-					w.Close()
-					return nil, fmt.Errorf("step %d: oracle cannot parse marshaled row %s: %v", si, jb, err)
-				}
-				sr := &StoredRow{ID: id, Val: rv, JSON: jb, CfgIdx: cfgIdx, MinMax: append([]string(nil), cfg.MinMax...),
-					Sem: rowSem(em, tok), Facts: rowFacts(g, rv, cfg), Unknown: em.Uncertain}
-				sr.Part = sr.Facts.Partition
-				w.Rows[id] = sr
-				w.Order = append(w.Order, id)
-				rows = append(rows, g)
-				ids = append(ids, id)
-			}
-			ch := make(chan error, 1)
-			if err := eng.IngestRows(ctx, rows, ch); err != nil {
+			if err := ingest(si, st.Rows); err != nil {
 				w.Close()
-				return nil, fmt.Errorf("step %d: IngestRows: %v", si, err)
+				return nil, err
 			}
-			pend = append(pend, pending{ch, ids})
 		case "flush":
 			if err := settle(); err != nil {
 				w.Close()
@@ -420,9 +440,56 @@ func RunHistory(h History) (*World, error) {
 				w.Close()
 				return nil, fmt.Errorf("step %d: world unreadable before merge: %v", si, err)
 			}
+			if len(st.During) > 0 {
+				// the caller keeps ingesting and flushing while Merge runs
+				type mres struct{ err error }
+				done := make(chan mres, 1)
+				atomic.StoreInt32(&slowWrites, 1)
+				go func() {
+					_, merr := eng.Merge(ctx)
+					done <- mres{merr}
+				}()
+				var derr error
+				for _, d := range st.During {
+					switch d.Op {
+					case "ingest":
+						derr = ingest(si, d.Rows)
+					case "flush":
+						derr = settle()
+					}
+					if derr != nil {
+						break
+					}
+				}
+				if derr == nil {
+					derr = settle()
+				}
+				r := <-done
+				atomic.StoreInt32(&slowWrites, 0)
+				if derr != nil {
+					w.Close()
+					return nil, fmt.Errorf("step %d (during a merge): %v", si, derr)
+				}
+				if r.err != nil && !faulty {
+					w.Close()
+					return nil, fmt.Errorf("step %d: merge (with concurrent ingest) failed on healthy stores: %v", si, r.err)
+				}
+				w.ConcMerges++
+				continue
+			}
 			stats, err := eng.Merge(ctx)
 			if err != nil && faulty {
-				continue // a merge that failed on an injected fault: all-or-nothing is C13's subject
+				// a merge that failed on an injected fault (all-or-nothing is C13's
+				// subject): the same engine instance tries again right away
+				if before, err = ReadWorld(ds, ms); err != nil {
+					w.Close()
+					return nil, fmt.Errorf("step %d: world unreadable after a failed merge: %v", si, err)
+				}
+				stats, err = eng.Merge(ctx)
+				if err != nil {
+					continue
+				}
+				w.MergeRetried++
 			}
 			if err != nil {
 				w.Close()
